@@ -24,6 +24,7 @@ type Plan struct {
 	V      int    `json:"v"`
 	Dup    int    `json:"dup"`
 	E      []int  `json:"E"` // pages beyond the committed size that are written and then freed (never committed)
+	F      []int  `json:"F"` // free-list leaves reused by the transaction: written without being journalled
 }
 
 // PagerOpts are concretisation parameters that do not enlarge the model's state space.
@@ -274,6 +275,13 @@ func (p *Pager) JPage(q int) error {
 	return p.C.WriteDB(int64(r-1)*p.ps(), p.L.PageBytes(r, p.NewContent(q)))
 }
 
+// JPageFree overwrites model page q, a free-list leaf, without journalling it (SQLite does not care
+// what a free page contains): a rollback will not bring its old bytes back.
+func (p *Pager) JPageFree(q int) error {
+	r := p.L.Real(q)
+	return p.C.WriteDB(int64(r-1)*p.ps(), p.L.PageBytes(r, Content{V: p.plan.V + 300}))
+}
+
 // JPageBeyond writes model page q although it lies beyond the size the transaction will commit
 // (spilled during the transaction, freed again before the commit).
 func (p *Pager) JPageBeyond(q int) error {
@@ -337,6 +345,14 @@ func (p *Pager) JFinal() error {
 	}
 	if p.plan.Out == "commit" {
 		p.Ref = p.NewImage()
+	} else if p.plan.Out == "rb_spill" && len(p.plan.F) > 0 {
+		ref := append([]Content(nil), p.Ref...)
+		for _, q := range p.plan.F {
+			if q >= 1 && q <= len(ref) {
+				ref[q-1] = Content{V: p.plan.V + 300}
+			}
+		}
+		p.Ref = ref
 	}
 	return nil
 }
@@ -581,6 +597,18 @@ func (p *Pager) Ckpt(kind string) error {
 
 // LastTxPages returns the real pages written by the most recent WAL transaction (page -> frame index).
 func (p *Pager) LastTxPages() map[uint32]int { return p.txPages }
+
+// JRmWal: leaving WAL mode, SQLite unlinks the (checkpointed, empty) log before the header is rewritten
+// in a rollback-journal transaction.
+func (p *Pager) JRmWal() error {
+	if p.C.WALExists() {
+		if err := p.C.RemoveWAL(); err != nil {
+			return fmt.Errorf("remove wal: %w", err)
+		}
+	}
+	p.ForgetWAL()
+	return nil
+}
 
 // ForgetWAL resets SQLite's view of the log (after a truncation by either side).
 func (p *Pager) ForgetWAL() {
